@@ -115,13 +115,21 @@ class Schema(object):
                 continue
             gl = etree.QName(grp).localname
             if gl in ('sequence', 'choice', 'all'):
-                for el in grp:
-                    if isinstance(el.tag, str) and etree.QName(el).localname == 'element':
-                        mx = el.get('maxOccurs', '1')
-                        form_q = True
-                        elems.append(dict(name=el.get('name'), ns=tns, type=resolve_qname(el, el.get('type')),
-                                          min=int(el.get('minOccurs', '1')), max=(10 ** 9 if mx == 'unbounded' else int(mx)),
-                                          nillable=el.get('nillable') in ('true', '1'), group=gl))
+                def walk(g, gname, in_choice):
+                    for el in g:
+                        if not isinstance(el.tag, str):
+                            continue
+                        ln = etree.QName(el).localname
+                        if ln == 'element':
+                            mx = el.get('maxOccurs', '1')
+                            elems.append(dict(name=el.get('name'), ns=tns, type=resolve_qname(el, el.get('type')),
+                                              min=0 if in_choice else int(el.get('minOccurs', '1')),
+                                              max=(10 ** 9 if mx == 'unbounded' else int(mx)),
+                                              nillable=el.get('nillable') in ('true', '1'), group=gname))
+                        elif ln in ('choice', 'sequence'):
+                            # a choice inside the sequence: its members in document order, each optional
+                            walk(el, ln, in_choice or ln == 'choice')
+                walk(grp, gl, gl == 'choice')
             elif gl == 'attribute':
                 attrs.append(dict(name=grp.get('name'), type=resolve_qname(grp, grp.get('type')), use=grp.get('use')))
         self._content[tq] = (attrs, elems, simple)
